@@ -18,6 +18,7 @@ import (
 	"github.com/arloliu/go-secs/v2/hsms"
 	"github.com/arloliu/go-secs/v2/secs2"
 	"github.com/arloliu/go-secs/v2/verifsim/core"
+	"github.com/arloliu/go-secs/v2/verifsim/refe4"
 	"github.com/arloliu/go-secs/v2/verifsim/refhsms"
 	"github.com/arloliu/go-secs/v2/verifsim/rig"
 	"github.com/arloliu/go-secs/v2/verifsim/simnet"
@@ -904,9 +905,231 @@ func Build(config string) core.BuildFunc {
 	switch config {
 	case "sweep":
 		return buildSweep()
+	case "sweep-secs1":
+		return buildSweepSECS1()
 	case "pure":
 		return buildPure()
 	default:
 		return buildSeeded()
+	}
+}
+
+// ---------------------------------------------------------------- sweep over the SECS-I transport
+
+const s1Exchange = 19 // per direction: ENQ/EOT/ACK (3 characters) + one 16-byte block
+
+type s1Case struct {
+	Equip, Active, ToLib bool
+	Off, Kind            int
+}
+
+// s1Cases: role x TCP role x direction x byte offset 0..19 x {FIN, RST, stall-forever}. SECS-I has
+// no linktest: a stall is only noticed through the T2 retries of the next block the library sends,
+// so the application keeps retrying its round trip and a stall after the whole exchange (offset 19),
+// which no timer covers, is not in the space.
+var s1Cases = func() []s1Case {
+	var out []s1Case
+	for _, equip := range []bool{false, true} {
+		for _, active := range []bool{false, true} {
+			for _, toLib := range []bool{false, true} {
+				for off := 0; off <= s1Exchange; off++ {
+					for kind := 0; kind < 3; kind++ {
+						if kind == kStall && off == s1Exchange {
+							continue
+						}
+						out = append(out, s1Case{equip, active, toLib, off, kind})
+					}
+				}
+			}
+		}
+	}
+
+	return out
+}()
+
+type sweep1 struct {
+	w    *core.World
+	r    *rig.Rig1
+	cs   s1Case
+	links []*simnet.Link
+	fired bool
+	firedAt time.Duration
+	okGen int
+	stop  bool
+	recovered bool
+	recoveredAt time.Duration
+	bound time.Duration
+	init  time.Duration
+	usedListeners int
+}
+
+func buildSweepSECS1() core.BuildFunc {
+	return func(w *core.World) *core.Scenario {
+		s := &sweep1{w: w}
+		n := int64(len(s1Cases))
+		idx := int(((w.T.Seed % n) + n) % n)
+		s.cs = s1Cases[idx]
+		cs := s.cs
+		const (
+			t1   = 40 * time.Millisecond
+			t2   = 100 * time.Millisecond
+			t3   = 300 * time.Millisecond
+			t5   = 500 * time.Millisecond
+			init = 50 * time.Millisecond
+		)
+		s.init = init
+		s.bound = t3 + 2*(2*t2)*2 + t5 + init + time.Second
+		device := uint16(1 + idx%3000)
+		s.r = rig.NewSECS1(w, rig.Opts1{Active: cs.Active, Equip: cs.Equip, Device: device, T1: t1, T2: t2, T3: t3, T4: time.Second, T5: t5, Retry: 1,
+			BackoffInit: init, BackoffMult: 2, CloseTimeout: time.Second})
+		r := s.r
+		attach := func(l *simnet.Link, p *refe4.Peer) {
+			p.L = l
+			s.links = append(s.links, l)
+			p.OnBlock = func(b refe4.RxBlock) {
+				if b.Valid && b.H.E && b.H.W && !p.Dead {
+					rh := refe4.Header{Device: device, R: !b.H.R, Stream: b.H.Stream, Func: b.H.Func + 1, Num: 1, E: true, Sys: b.H.Sys}
+					p.SendBlock(refe4.Wire(rh, []byte{0x41, 0x01, 'y'}), nil, nil, nil)
+				}
+			}
+			if len(s.links) != 1 {
+				return
+			}
+			// the first connection is the one that gets cut
+			pipe := l.ToPeer()
+			if cs.ToLib {
+				pipe = l.ToLib()
+			}
+			fire := func() {
+				if s.fired {
+					return
+				}
+				s.fired, s.firedAt = true, w.Now()
+				p.Dead = true
+				w.Fault(kindNames[cs.Kind])
+				switch cs.Kind {
+				case kFIN:
+					l.FIN()
+				case kRST:
+					l.RST()
+				case kStall:
+					l.Stall(true, 0)
+					l.Stall(false, 0)
+				}
+			}
+			if cs.Off == 0 {
+				w.After(0, "cut", fire)
+			} else {
+				pipe.CutAt = cs.Off
+				pipe.OnCut = fire
+			}
+		}
+		r.N.OnConnect = func(l *simnet.Link) simnet.RawEnd {
+			p := refe4.New(w, !cs.Equip, t1, t2)
+			attach(l, p)
+
+			return p
+		}
+		if !cs.Active {
+			var tick func()
+			tick = func() {
+				if s.stop {
+					return
+				}
+				if r.N.Listening(rig.Addr) && len(r.N.Listeners) > s.usedListeners {
+					s.usedListeners = len(r.N.Listeners)
+					p := refe4.New(w, !cs.Equip, t1, t2)
+					if l := r.N.PeerConnect(rig.Addr, p); l != nil {
+						attach(l, p)
+					}
+				}
+				w.After(10*time.Millisecond, "peer-dial-tick", tick)
+			}
+			w.After(0, "peer-dial-tick", tick)
+		}
+		r.Open()
+		w.Go("app", func() {
+			// the application retries its round trip until it has succeeded once on each generation
+			for !s.stop {
+				if !r.Selected() || len(s.links) <= s.okGen {
+					core.Sleep(5 * time.Millisecond)
+
+					continue
+				}
+				gen := len(s.links)
+				rep, err := r.C.SendDataMessage(context.Background(), 1, 1, true, secs2.A("x"))
+				if err == nil && rep != nil {
+					s.okGen = gen
+					w.Logf("trip ok gen=%d", gen)
+				} else {
+					w.Logf("trip failed gen=%d err=%v", gen, err)
+					core.Sleep(30 * time.Millisecond)
+				}
+			}
+		})
+
+		return &core.Scenario{
+			Desc: map[string]any{"transport": "secs1", "case": idx, "equip": cs.Equip, "active": cs.Active, "direction": map[bool]string{true: "peer->library", false: "library->peer"}[cs.ToLib],
+				"offset": cs.Off, "kind": kindNames[cs.Kind], "cases": len(s1Cases)},
+			Horizon: 20 * time.Second,
+			Tag:     fmt.Sprintf("s1cut-%d", idx), TagSpace: len(s1Cases),
+			Done: func() bool {
+				if s.fired && !s.recovered && s.okGen >= 2 && r.Selected() {
+					s.recovered, s.recoveredAt = true, w.Now()
+				}
+
+				return (s.recovered && w.Now() > s.recoveredAt+300*time.Millisecond) || (s.fired && w.Now() > s.firedAt+s.bound+time.Second) || (!s.fired && w.Now() > 5*time.Second)
+			},
+			Final:      s.final,
+			Cleanup:    func() { s.stop = true; _ = r.C.Close() },
+			Nontrivial: func() bool { return s.fired },
+		}
+	}
+}
+
+func (s *sweep1) final(reason string) {
+	w, r, cs := s.w, s.r, s.cs
+	dir := map[bool]string{true: "peer->library", false: "library->peer"}[cs.ToLib]
+	if !s.fired {
+		w.Fail("HARNESS", "SECS-I cut case %+v never fired (reason %s)", cs, reason)
+
+		return
+	}
+	if !s.recovered {
+		w.Fail("NO_RECOVERY", "SECS-I line cut (%s at byte %d, %s, equipment=%v active=%v) at %v: no working session within %v (state %v, %d connections, %d dials, %d listens)",
+			kindNames[cs.Kind], cs.Off, dir, cs.Equip, cs.Active, s.firedAt, s.bound, r.C.State(), len(s.links), r.N.Dials, r.N.Listens)
+
+		return
+	}
+	if s.recoveredAt > s.firedAt+s.bound {
+		w.Fail("SLOW_RECOVERY", "recovered %v after the cut; bound %v", s.recoveredAt-s.firedAt, s.bound)
+
+		return
+	}
+	closed := s.links[0].A.ClosedAt
+	attempts, times := r.N.Dials, r.N.DialTimes
+	what := "dial"
+	if !cs.Active {
+		attempts, times, what = r.N.Listens, r.N.ListenTimes, "listen"
+	}
+	if attempts != 2 {
+		w.Fail("ATTEMPTS", "one line failure with a reachable peer: %d %s attempts, want 2", attempts, what)
+
+		return
+	}
+	if gap := times[1] - closed; closed < 0 || gap != s.init {
+		w.Fail("BACKOFF", "the second %s came %v after the library closed the failed connection (at %v); the configured initial backoff is %v", what, gap, closed, s.init)
+
+		return
+	}
+	if cs.Active {
+		if n := r.C.Metrics().Reconnects(); n != 1 {
+			w.Fail("RECONNECTS", "one successful re-dial: Reconnects() = %d, want 1", n)
+
+			return
+		}
+	}
+	if g := r.C.Metrics().Reconnecting(); g != 0 {
+		w.Fail("GAUGE", "Reconnecting() = %d at a quiescent Selected point", g)
 	}
 }
